@@ -2,7 +2,8 @@
    (translator/gen_c19proxy.go -> Generated/C19Proxy.v): the current source is the [fixed]
    variant that Properties/C19.v is about - the caller's codec is forwarded and the backend's
    reply codec kept, the reply metadata is nil-checked, Bad Gateway is a new status object,
-   X-Real-IP is set (not appended) under the emptiness test - each handler hands the request to
+   X-Real-IP is set (not appended) under the emptiness test, its value is ctx.IP() (the caller's
+   remote address, not the session id or anything else) - each handler hands the request to
    the forwarder at exactly one call site outside any loop, request metadata is copied with
    Add and reply metadata with Set, and the connection-class test has the modelled bounds. *)
 From Coq Require Import Strings.String Strings.Byte.
@@ -12,6 +13,7 @@ Import ListNotations.
 
 Theorem C19_source_is_the_modelled_variant :
   mkVariant src_forward_codec src_nil_guard src_copy_status src_set_real_ip = fixed /\
+  src_real_ip_is_remote_addr = true /\
   src_single_forward = true /\ src_request_meta_add = true /\ src_reply_meta_set = true /\
   forall s, conn_class s =
             negb (Z.eqb (st_code s) 0) && Z.ltb src_class_above (st_code s)
